@@ -228,6 +228,23 @@ def run_case(case):
       okb = qtypes.contains(bd, bias.reshape(-1))
       if not okb.all():
         bad("bias-type", "%s bias value %r is not in the reported bias type %r" % (layer.name, float(bias[~okb][0]), bd), cn, wq)
+    # --- the JSON view is the documented transform of the raw map (fixed point: int_bits + is_signed) ---------
+    jd = qt._output_dict.get(layer.name, {})     # pylint: disable=protected-access
+    for key, raw in (("weight_quantizer", entry["weight_quantizer"]), ("bias_quantizer", entry["bias_quantizer"]),
+                     ("multiplier", entry["multiplier"].output), ("accumulator", entry["accumulator"].output),
+                     ("output_quantizer", entry["output_quantizer"])):
+      if raw is None or key not in jd:
+        continue
+      j = jd[key]
+      evals += 1
+      if raw.is_floating_point or getattr(raw, "is_po2", 0) or raw.mode != 0:
+        ok_j = j.get("bits") == raw.bits
+      else:
+        ok_j = (j.get("bits") == raw.bits and j.get("int_bits") == raw.int_bits + int(bool(raw.is_signed)) and
+                bool(j.get("is_signed")) == bool(raw.is_signed))
+      if not ok_j:
+        bad("json-view:" + key, "%s: JSON view %r is not the documented transform of the raw type (bits %r, int_bits %r, "
+            "signed %r)" % (layer.name, dict(j), raw.bits, raw.int_bits, raw.is_signed), cn)
     # --- accumulator -----------------------------------------------------------------------------------
     acc_entry = entry["fused_accumulator"] if wq == "auto_po2" else entry["accumulator"]
     ad = qtypes.den(acc_entry.output)
